@@ -24,3 +24,9 @@ def regenerate_all(ck):
     except Exception as e:  # fail closed
         return False, f"{type(e).__name__}: {e}"
     return True, ""
+
+from . import t3_numpy  # noqa: E402  T3: pint/facets/numpy/numpy_func.py -> Gen/NumpyTables.v
+GENERATORS.append(("T3 numpy tables", t3_numpy.generate))
+
+from . import t5_errors  # noqa: E402  T5: pint exception classes (errors.py + subclasses) -> Gen/ErrorsTable.v
+GENERATORS.append(("T5 exception classes", t5_errors.generate))
